@@ -437,14 +437,47 @@ func runC09(rep *Report, r *Rng, tier string) {
 			break
 		}
 	}
-	if tier == "thorough" {
-		for _, depth := range []int{1000, 100000} {
+	{
+		depths := []int{1000, 10001, 20000}
+		if tier == "thorough" {
+			depths = append(depths, 100000)
+		}
+		for _, depth := range depths {
 			s := strings.Repeat("(", depth) + "a = \"1\"" + strings.Repeat(")", depth)
 			got, _ := safeParse(s)
 			if !strings.HasPrefix(got, "ok E 61 31 0") {
 				rep.Violate(Violation{Kind: "input", Signature: "C09:deep-nesting", What: fmt.Sprintf("nesting depth %d", depth), Expected: "ok E 61 31 0 G 0", Actual: trunc(got, 100), Case: map[string]int{"depth": depth}})
 			}
 			rep.Count("deep-nesting")
+		}
+		// long but FLAT sentences, and long values: many negations / parenthesised terms side by side, and a value made
+		// of thousands of operator characters, are nested one level deep however long they are
+		n := 15000
+		var b strings.Builder
+		for i := 0; i < n; i++ {
+			if i > 0 {
+				b.WriteString(" | ")
+			}
+			fmt.Fprintf(&b, "^ id = \"%d\"", i)
+		}
+		flatNot := b.String()
+		b.Reset()
+		for i := 0; i < n; i++ {
+			if i > 0 {
+				b.WriteString(" & ")
+			}
+			fmt.Fprintf(&b, "( ^ id = \"%d\" )", i)
+		}
+		flatParen := b.String() + " ; id"
+		longValue := "note = \"" + strings.Repeat("(", n) + strings.Repeat("^", n) + "\""
+		for name, text := range map[string]string{"flat-negations": flatNot, "flat-parenthesised": flatParen, "long-value": longValue} {
+			got, _ := safeParse(text)
+			want := o.Ask("qp parse " + hx(text))
+			rep.Eval("long-"+name, true)
+			rep.Count("long-flat-sentences")
+			if got != want {
+				rep.Violate(Violation{Kind: "input", Signature: "C09:long-sentence", What: fmt.Sprintf("a sentence of %d bytes (%s, %d terms, nesting depth <= 2) is parsed differently from the model", len(text), name, n), Expected: trunc(want, 200), Actual: trunc(got, 200), Case: map[string]any{"family": name, "terms": n}})
+			}
 		}
 	}
 	after := settledLexerGoroutines()
